@@ -326,4 +326,27 @@ theorem eq_final (V v : Version) (hV : V.wf = true) (hfin : V.isFinal = true) (h
     rw [vk_le_iff, cmp_eq_pub_then_loc, hvl, f4, compare_self_eq]
     cases pubCmp v V <;> simp [Ordering.then, Ordering.swap]
 
+/-- **`~=V`** for a final `V` with at least two release components, every candidate -/
+theorem compat_final (V v : Version) (hV : V.wf = true) (hfin : V.isFinal = true) (hp : 2 ≤ V.precision)
+    (hv : v.wf = true) :
+    (⟨some V, some (compatHigh V), true, false⟩ : VRange).allows v = containsCompat V v := by
+  by_cases hr : relKey v = relKey V
+  · obtain ⟨hHfin, hlt, hHwf, hrk, k2, w2, hlen⟩ := compat_facts V hV hp
+    have hlo : (⟨some V, some (compatHigh V), true, false⟩ : VRange).allowsLo v = containsGe V v := by
+      rw [← ge_final V v hV hfin hv]
+      show _ = ((⟨some V, none, true, false⟩ : VRange).allowsLo v && true)
+      rw [Bool.and_true]; rfl
+    have hneH : relKey v ≠ relKey (compatHigh V) := by rw [hr]; exact hrk
+    have hhi := VRange.allowsHi_iff_denHi ⟨some V, some (compatHigh V), true, false⟩ v hv
+      (fun M hM => by simp at hM; subst hM; exact ⟨hHwf, Or.inr hneH⟩)
+    have hA := VRange.halfOpen_allowedMax (V := V) hHfin (ne_of_lt hlt)
+    simp only [VRange.halfOpen] at hA
+    unfold containsCompat
+    simp only [hlen, if_false]
+    apply bool_eq_of_iff
+    unfold VRange.allows
+    rw [hlo, Bool.and_eq_true, Bool.and_eq_true, hhi, vGt_iff w2 hv, k2]
+    simp [VRange.denHi, hA, containsGe]
+  · exact compat_allows V v hV hp hv (Or.inr hr)
+
 end Poetry
